@@ -18,6 +18,7 @@ pub mod c13;
 pub mod c14;
 pub mod c15;
 pub mod c16;
+pub mod c17;
 pub mod c18;
 pub mod c19;
 pub mod c20;
@@ -42,6 +43,7 @@ pub fn lanes_of(id: &str) -> Vec<(&'static str, LaneFn)> {
         "C14" => vec![("differential", c14::differential)],
         "C15" => vec![("random", c15::random), ("patterns", c15::patterns)],
         "C16" => vec![("paging", c16::paging)],
+        "C17" => vec![("matrix", c17::matrix_lane)],
         "C18" => vec![("table", c18::table)],
         "C19" => vec![("requests", c19::requests), ("responses", c19::responses), ("envelope", c19::envelope)],
         "C20" => vec![("random", c20::random), ("errors", c20::errors)],
@@ -84,6 +86,7 @@ pub fn replay(ctx: &Ctx, id: &str, v: &Value) -> Value {
         "C14" => c14::replay(ctx, v),
         "C15" => c15::replay(ctx, v),
         "C16" => c16::replay(ctx, v),
+        "C17" => c17::replay(ctx, v),
         "C18" => c18::replay(ctx, v),
         "C19" => c19::replay(ctx, v),
         "C20" => c20::replay(ctx, v),
